@@ -27,9 +27,10 @@ pub fn dur(ns: u64) -> Duration {
     }
 }
 
-/// the one floating point computation of the scheduler, recomputed with the same std call
+/// the pacing tick: exact integer quotient of the nanoseconds (/repo 9d73d78; it was `Duration::div_f64`). The Lean
+/// driver computes the same value itself (`Sched.modelTicks`): the `toi:tick` tokens are informative only.
 pub fn div_tick(dur_ns: u64, n: u64) -> u64 {
-    Duration::from_nanos(dur_ns).div_f64(n as f64).as_nanos() as u64
+    dur_ns / n
 }
 
 struct Sub(Arc<Mutex<Vec<(bool, u64, u64)>>>);
